@@ -26,6 +26,8 @@ def run(rep):
     rep.guard(c04.b5, rep, w)     # the frame limit is tested before the frame is pushed: the overflow report resolves the caller's ip in the caller's chunk
     import c15
     rep.guard(c15.n1, rep, w)     # a flag left over from an earlier failed run turns a later, unrelated try statement into a phantom error report
+    import c04_narrow
+    rep.guard(c04_narrow.b4n, rep, w)   # line information kept in sub-word counters (run lengths) wraps on long lines: later errors are reported with the wrong line
 
 
 def first_getter_from(f, b, limit=6):
